@@ -77,6 +77,7 @@ type jEvent struct {
 	Err    string `json:"err"`
 	ErrClass string `json:"errclass"`
 	Byz    bool   `json:"byz"` // delivered message was produced by the adversary
+	Bad    bool   `json:"bad"` // the adversary made this message invalid on purpose (garbage signature / foreign supplemental data)
 	PostGST bool  `json:"postgst"`
 }
 
@@ -142,6 +143,7 @@ type host struct {
 	started   map[uint64]bool
 	done      bool
 	crashed   bool
+	maxRound  uint64    // highest round reported while running instance 0
 	clk       time.Time // own clock, scripted mode only (participants never share a clock in reality either)
 }
 
@@ -237,6 +239,9 @@ type qev struct {
 	dest int
 	msg  *gpbft.GMessage
 	byz  bool
+	bad  bool // invalid on purpose
+	badsupp bool // ... by foreign supplemental data (only meaningful for the instance the receiver is running)
+	again bool // second delivery of a message the validator already refused once
 }
 type evq []*qev
 
@@ -375,7 +380,8 @@ var noDec = jDec{None: true, V: []int{}, S: []int{}, Pw: []int64{}}
 func (w *world) decInfo(h *host, d *gpbft.Justification) jDec {
 	s, pw, inTable := w.signers(d)
 	o := jDec{Inst: d.Vote.Instance, R: d.Vote.Round, Ph: d.Vote.Phase.String(), V: w.chainIDs(d.Vote.Value), S: s, Pw: pw, InTable: inTable}
-	o.SuppOK = d.Vote.SupplementalData.Eq(&w.supp)
+	// compared field by field here (not with the code's own Eq, which is part of what is being checked)
+	o.SuppOK = d.Vote.SupplementalData.Commitments == w.supp.Commitments && d.Vote.SupplementalData.PowerTable.Equals(w.supp.PowerTable)
 	// aggregate verifies over exactly the decided value: rebuild the payload from the expected fields
 	pl := gpbft.Payload{Instance: d.Vote.Instance, Round: 0, Phase: gpbft.DECIDE_PHASE, SupplementalData: w.supp, Value: d.Vote.Value}
 	var idx []int
@@ -404,6 +410,9 @@ func (w *world) decInfo(h *host, d *gpbft.Justification) jDec {
 func (w *world) after(id int, ev *jEvent, err error) {
 	h := w.hosts[id]
 	pr := w.parts[id].Progress()
+	if pr.ID == 0 && pr.Round > h.maxRound {
+		h.maxRound = pr.Round
+	}
 	ev.T = w.ms()
 	ev.Phase = pr.Phase.String()
 	ev.Round = pr.Round
@@ -613,6 +622,12 @@ func (w *world) forge(inst uint64, ph gpbft.Phase, r uint64, v *gpbft.ECChain) *
 
 // byzMessage builds a validly signed message of a Byzantine sender if the rules admit one.
 func (w *world) byzMessage(sender int, inst uint64, ph gpbft.Phase, r uint64, v *gpbft.ECChain, jopt int) *gpbft.GMessage {
+	return w.byzMessageSupp(sender, inst, ph, r, v, jopt, w.supp)
+}
+
+// byzMessageSupp: as byzMessage, but the Byzantine sender signs a payload carrying the given supplemental data
+// (the justification, aggregated from observed signatures, necessarily carries the instance's real one).
+func (w *world) byzMessageSupp(sender int, inst uint64, ph gpbft.Phase, r uint64, v *gpbft.ECChain, jopt int, supp gpbft.SupplementalData) *gpbft.GMessage {
 	if ph == gpbft.QUALITY_PHASE || ph == gpbft.DECIDE_PHASE {
 		r = 0
 	}
@@ -659,7 +674,7 @@ func (w *world) byzMessage(sender int, inst uint64, ph gpbft.Phase, r uint64, v 
 			return nil
 		}
 	}
-	mb := &gpbft.MessageBuilder{NetworkName: network, PowerTable: w.pt, Payload: gpbft.Payload{Instance: inst, Round: r, Phase: ph, SupplementalData: w.supp, Value: v}, Justification: j}
+	mb := &gpbft.MessageBuilder{NetworkName: network, PowerTable: w.pt, Payload: gpbft.Payload{Instance: inst, Round: r, Phase: ph, SupplementalData: supp, Value: v}, Justification: j}
 	if ph == gpbft.CONVERGE_PHASE {
 		mb.BeaconForTicket = []byte("beacon")
 	}
@@ -721,7 +736,26 @@ func (w *world) byzStep() {
 	chains := w.knownChains()
 	v := chains[w.rng.Intn(len(chains))]
 	sender := w.sc.Byz[w.rng.Intn(len(w.sc.Byz))]
-	m := w.byzMessage(sender, inst, ph, r, v, -1)
+	var m *gpbft.GMessage
+	bad, badsupp := false, false
+	switch w.rng.Intn(12) {
+	case 0: // validly signed, but over foreign supplemental data (same power table CID, other commitments)
+		supp := w.supp
+		supp.Commitments[0] ^= 0x5a
+		m = w.byzMessageSupp(sender, inst, ph, r, v, -1, supp)
+		bad, badsupp = true, true
+	case 1: // garbage payload signature; refused messages are delivered a second time (a verdict must not depend on history)
+		m = w.byzMessage(sender, inst, ph, r, v, -1)
+		if m != nil {
+			cp := *m
+			cp.Signature = append([]byte{}, m.Signature...)
+			cp.Signature[len(cp.Signature)/2] ^= 0xff
+			m = &cp
+			bad = true
+		}
+	default:
+		m = w.byzMessage(sender, inst, ph, r, v, -1)
+	}
 	if m == nil {
 		return
 	}
@@ -732,7 +766,7 @@ func (w *world) byzStep() {
 				continue
 			}
 			w.seq++
-			heap.Push(&w.q, &qev{at: at, seq: w.seq, dest: id, msg: m, byz: true})
+			heap.Push(&w.q, &qev{at: at, seq: w.seq, dest: id, msg: m, byz: true, bad: bad, badsupp: badsupp})
 		}
 	}
 }
@@ -829,20 +863,31 @@ func (w *world) step() bool {
 	if h.done || h.crashed {
 		return true
 	}
+	if e.badsupp {
+		// the queue of a participant that has not started the instance yet cannot tell foreign supplemental data apart; such a
+		// message is dropped silently when the queue is drained -- nothing observable, so it is not delivered in the first place
+		if pr := w.parts[e.dest].Progress(); pr.Phase == gpbft.INITIAL_PHASE || pr.ID != e.msg.Vote.Instance {
+			return true
+		}
+	}
 	vm, err := w.parts[e.dest].ValidateMessage(ctx, e.msg)
 	if err != nil {
 		if errors.Is(err, gpbft.ErrValidationNotRelevant) || errors.Is(err, gpbft.ErrValidationTooOld) || errors.Is(err, gpbft.ErrValidationNoCommittee) {
 			return true
 		}
 		// a rejected message: an event of its own (C07: honest output must never be branded invalid)
-		ev := &jEvent{Ev: "Rejected", N: e.dest, M: w.jm(e.msg), Byz: e.byz}
+		ev := &jEvent{Ev: "Rejected", N: e.dest, M: w.jm(e.msg), Byz: e.byz, Bad: e.bad}
 		w.after(e.dest, ev, err)
+		if e.bad && !e.again {
+			w.seq++
+			heap.Push(&w.q, &qev{at: w.now.Add(time.Millisecond), seq: w.seq, dest: e.dest, msg: e.msg, byz: true, bad: true, again: true})
+		}
 		return true
 	}
 	if e.byz {
 		w.byzDelivered = true
 	}
-	ev := &jEvent{Ev: "Receive", N: e.dest, M: w.jm(e.msg), Byz: e.byz}
+	ev := &jEvent{Ev: "Receive", N: e.dest, M: w.jm(e.msg), Byz: e.byz, Bad: e.bad}
 	if pt, ok := w.parts[e.dest].VerifPhaseTimeout(); ok {
 		ev.To = !w.now.Before(pt)
 	}
@@ -868,16 +913,17 @@ func (w *world) end(reason string) {
 		Crashed  bool   `json:"crashed"`
 		Round    uint64 `json:"round"`
 		GSTRound uint64 `json:"gstround"`
+		MaxRound uint64 `json:"maxround"` // highest round reached in instance 0
 		Inst     uint64 `json:"inst"`
 	}
 	var ps []pend
 	for _, id := range w.honest {
 		h := w.hosts[id]
 		pr := w.parts[id].Progress()
-		ps = append(ps, pend{N: id, Started: h.started[0], Decided: len(h.decs), Crashed: h.crashed, Round: pr.Round, GSTRound: w.gstRounds[id], Inst: pr.ID})
+		ps = append(ps, pend{N: id, Started: h.started[0], Decided: len(h.decs), Crashed: h.crashed, Round: pr.Round, GSTRound: w.gstRounds[id], MaxRound: h.maxRound, Inst: pr.ID})
 	}
 	w.log = append(w.log, map[string]any{"ev": "End", "reason": reason, "parts": ps, "byzdelivered": w.byzDelivered, "t": w.ms(),
-		"gstpassed": w.gstPassed, "insts": w.sc.Instances, "gst": w.sc.GST.Milliseconds(), "name": w.sc.Name})
+		"gstpassed": w.gstPassed, "insts": w.sc.Instances, "gst": w.sc.GST.Milliseconds(), "name": w.sc.Name, "skipped": w.skipped})
 }
 
 func (w *world) run() {
